@@ -92,20 +92,22 @@ class Frag:
         raise Uninterpretable("%s is not an arithmetic value: %r" % (what, v))
 
     def subst(self, val: Rat, sym: str, repl: Rat) -> Rat:
-        """substitute a loop symbol, also inside the indices of atoms"""
+        """substitute a loop symbol, also (recursively) inside the indices of atoms and inside sums"""
         mapping: Dict[str, Rat] = {}
         for s in val.symbols():
             if s == sym:
                 mapping[s] = repl
             elif s in self.atoms:
                 base, idx = self.atoms[s]
-                if any(sym in i.symbols() for i in idx):
-                    mapping[s] = self.atom(base, tuple(self.subst(i, sym, repl) for i in idx))
+                nidx = tuple(self.subst(i, sym, repl) for i in idx)
+                if any(not a.eq(b) for a, b in zip(idx, nidx)):
+                    mapping[s] = self.atom(base, nidx)
             elif s in self.sums:
                 ssym, lo, hi, step, term = self.sums[s]
-                if any(sym in x.symbols() for x in (lo, hi, step, term)) and ssym != sym:
-                    mapping[s] = self.make_sum(ssym, self.subst(lo, sym, repl), self.subst(hi, sym, repl),
-                                               self.subst(step, sym, repl), self.subst(term, sym, repl))
+                if ssym != sym:
+                    new = tuple(self.subst(x, sym, repl) for x in (lo, hi, step, term))
+                    if any(not a.eq(b) for a, b in zip((lo, hi, step, term), new)):
+                        mapping[s] = self.make_sum(ssym, *new)
         out = val
         for s, r in mapping.items():
             out = out.subs(s, r)
